@@ -20,6 +20,7 @@ import (
 	"github.com/redis/rueidis/internal/cmds"
 	"github.com/redis/rueidis/internal/util"
 
+	"verifsim/fakeredis"
 	"verifsim/resp"
 	"verifsim/sched"
 	"verifsim/simnet"
@@ -355,8 +356,13 @@ type env struct {
 	delayLog []delayEvent
 }
 
+type fakeredisSrvConn = fakeredis.SrvConn
+type fakeredisPush = fakeredis.Push
+
 type invEvent struct {
+	Goid uint64 // the goroutine that ran the callback: one reader goroutine per connection
 	Step int
+	Seq  int // model sequence number when the callback ran
 	Keys []string // nil = flush / disconnect
 	Nil  bool
 }
@@ -453,7 +459,7 @@ func (e *env) clientOption() ClientOption {
 	}
 	if o.OnInvalidations {
 		opt.OnInvalidations = func(msgs []RedisMessage) {
-			ev := invEvent{Step: e.sim.Step}
+			ev := invEvent{Goid: curGoid(), Step: e.sim.Step, Seq: e.sim.W.Seq()}
 			if msgs == nil {
 				ev.Nil = true
 			}
